@@ -362,7 +362,7 @@ class Verifier:
         E.saturate(p.solver.assertions() + [g])
         s = z3.Solver()
         s.set('timeout', self.timeout)
-        s.set('random_seed', self.seed)
+        s.set('random_seed', 0)
         for a in p.solver.assertions():
             s.add(a)
         for ax in vals.AXIOMS:
@@ -375,7 +375,7 @@ class Verifier:
             # stage 2: with the quantified definitions themselves
             s2 = z3.Solver()
             s2.set('timeout', self.timeout)
-            s2.set('random_seed', self.seed)
+            s2.set('random_seed', 0)
             for a in s.assertions():
                 s2.add(a)
             for qd in p.qdefs:
